@@ -1,6 +1,6 @@
 CONSTANTS
   Types = {"CN", "O", "X1234", "X2543", "OU"}
-  Values = {"Ua", "Ub", "Pa"}
+  Values = {"Ua", "Ub", "Pa", "Ue"}
   None = "none"
 INIT Init
 NEXT Next
